@@ -252,6 +252,18 @@ func c01(c *Ctx) {
 		keys = append(keys, k)
 	}
 	sort.Strings(keys)
+	// checks discharged from the function's own code, by function and kind: the compiler reports
+	// the same check again at every call site into which it inlined the function
+	localOf := map[string]string{}
+	for _, k := range keys {
+		s := first[k]
+		if _, triaged := want[k]; triaged || got[k] != 1 {
+			continue
+		}
+		if why := locallyGuarded(s); why != "" {
+			localOf[s.FnName+" "+s.Kind] = why
+		}
+	}
 	for _, k := range keys {
 		s := first[k]
 		pos := fmt.Sprintf("%s:%d", s.File, s.Line)
@@ -291,12 +303,16 @@ func c01(c *Ctx) {
 			r.Pass("R1.bounds", k, pos, "discharged by provenance: "+why)
 			continue
 		}
-		if why := inlinedCopy(p, s, want); why != "" {
+		if why := inlinedCopy(p, s, want, localOf); why != "" {
 			r.Pass("R1.bounds", k, pos, why)
 			continue
 		}
 		if why := totalLibraryCall(p, s); why != "" {
 			r.Pass("R1.bounds", k, pos, why)
+			continue
+		}
+		if why := minLenBound(p, s); why != "" && got[k] == 1 {
+			r.Pass("R1.bounds", k, pos, "discharged locally: "+why)
 			continue
 		}
 		if why := pooledBufferBound(p, s); why != "" {
@@ -684,6 +700,19 @@ func locallyGuarded(s core.BoundsSite) string {
 				if why := chunkLoopGuarded(s.Fn, x); why != "" {
 					return why
 				}
+				// x[len(h):] with x := make([]T, len(h)+len(d)): the low bound is one of the two
+				// non-negative terms of the length
+				if x.High == nil && x.Low != nil {
+					if mk, ok := core.Unwrap(x.X).(*ssa.MakeSlice); ok {
+						if sum, ok := mk.Len.(*ssa.BinOp); ok && sum.Op == token.ADD {
+							isLenAny := func(v ssa.Value) bool { return core.IsLenOf(v, func(ssa.Value) bool { return true }) }
+							same := func(a, b ssa.Value) bool { return a == b || core.SameExpr(core.Unwrap(a), core.Unwrap(b)) }
+							if (same(sum.X, x.Low) && isLenAny(sum.X) && isLenAny(sum.Y)) || (same(sum.Y, x.Low) && isLenAny(sum.X) && isLenAny(sum.Y)) {
+								return "x[len(h):] with x = make(len(h)+len(d)): len(h) <= len(x)"
+							}
+						}
+					}
+				}
 				// x[len(k):] (or x[:len(x)-len(k)]) on the true edge of bytes.HasPrefix(x, k) /
 				// HasSuffix(x, k): the library tests len(x) >= len(k) first
 				if x.High == nil && x.Low != nil {
@@ -884,7 +913,7 @@ func wide64(v ssa.Value) bool {
 // the check is a copy of one inside that function. It is covered when the site is a call of a
 // module function all of whose own unproven checks of that kind are triaged (the invariant
 // written there is about the callee's own data, e.g. "crypto.Keccak256 returns 32 bytes").
-func inlinedCopy(p *core.Prog, s core.BoundsSite, want map[string]*triageEntry) string {
+func inlinedCopy(p *core.Prog, s core.BoundsSite, want map[string]*triageEntry, localOf map[string]string) string {
 	call, ok := s.Node.(*ast.CallExpr)
 	if !ok || s.Fn == nil {
 		return ""
@@ -943,6 +972,9 @@ func inlinedCopy(p *core.Prog, s core.BoundsSite, want map[string]*triageEntry) 
 		}
 	}
 	if len(reasons) == 0 {
+		if why, ok := localOf[name+" "+s.Kind]; ok {
+			return "the compiler's inlined copy of " + name + ", whose own check of this kind is discharged from its code (" + why + ")"
+		}
 		return ""
 	}
 	sort.Strings(reasons)
@@ -1457,6 +1489,93 @@ func totalLibraryCall(p *core.Prog, s core.BoundsSite) string {
 	}
 	if totalLibraryFuncs[name] {
 		return "check inside the inlined dependency function " + name + ", which sizes its own output and accepts any input length (dependencies are out of scope)"
+	}
+	return ""
+}
+
+// minLenBound: x[:min(len(x), k)] (the builtin form of "cut to at most k"): the upper bound holds
+// by construction; the lower bound needs k >= 0, accepted when k is a non-negative constant, a
+// length, or a parameter that every call site in the module gives a non-negative constant.
+func minLenBound(p *core.Prog, s core.BoundsSite) string {
+	if s.Fn == nil {
+		return ""
+	}
+	nonNeg := func(v ssa.Value) bool {
+		if k, isC := core.ConstInt(v); isC {
+			return k >= 0
+		}
+		if core.IsLenOf(v, func(ssa.Value) bool { return true }) {
+			return true
+		}
+		pa := core.ParamOf(v)
+		if pa == nil || pa.Parent() != s.Fn {
+			return false
+		}
+		idx := -1
+		for i, q := range s.Fn.Params {
+			if q == pa {
+				idx = i
+			}
+		}
+		n := 0
+		for _, cs := range p.CallersOfFn(s.Fn) {
+			for _, c := range cs {
+				n++
+				if idx < 0 || idx >= len(c.Common().Args) {
+					return false
+				}
+				if k, isC := core.ConstInt(c.Common().Args[idx]); !isC || k < 0 {
+					return false
+				}
+			}
+		}
+		return n > 0
+	}
+	for _, b := range s.Fn.Blocks {
+		for _, in := range b.Instrs {
+			x, ok := in.(*ssa.Slice)
+			if !ok || x.Pos() != s.Pos || x.Low != nil || x.High == nil {
+				continue
+			}
+			mc, ok := core.Unwrap(x.High).(*ssa.Call)
+			if !ok || core.CalleeID(mc) != "builtin.min" || len(mc.Call.Args) != 2 {
+				continue
+			}
+			a0, a1 := mc.Call.Args[0], mc.Call.Args[1]
+			isLen := func(v ssa.Value) bool {
+				return core.IsLenOf(v, func(y ssa.Value) bool {
+					// the same slice, or two loads of one local cell in the same block with no store in between
+					if y == x.X || core.SameValue(y, x.X) {
+						return true
+					}
+					l1, ok1 := y.(*ssa.UnOp)
+					l2, ok2 := x.X.(*ssa.UnOp)
+					if !ok1 || !ok2 || l1.X != l2.X || l1.Block() != l2.Block() {
+						return false
+					}
+					if _, isCell := l1.X.(*ssa.Alloc); !isCell {
+						return false
+					}
+					between := false
+					for _, i2 := range l1.Block().Instrs {
+						if i2 == ssa.Instruction(l1) || i2 == ssa.Instruction(l2) {
+							between = !between
+							continue
+						}
+						if between {
+							switch i2.(type) {
+							case *ssa.Store, *ssa.Call, *ssa.Go, *ssa.Defer:
+								return false
+							}
+						}
+					}
+					return true
+				})
+			}
+			if (isLen(a0) && nonNeg(a1)) || (isLen(a1) && nonNeg(a0)) {
+				return "x[:min(len(x), k)] with k >= 0: 0 <= bound <= len(x)"
+			}
+		}
 	}
 	return ""
 }
